@@ -58,6 +58,7 @@ type Obligation struct {
 	Ctx     *Ctx
 	Extra   []string // extra assertions (after prefix)
 	ExpectSat bool   // vacuity cover query: must be SAT
+	Relaxed   bool   // counterexample search without quantified assumptions
 }
 
 // Ctx is the verification context of one top-level function (or lemma).
@@ -87,6 +88,7 @@ type Ctx struct {
 	retMerged []Val
 	retState  *State
 	entryEnv  *SpecEnv
+	axiomsUsed []string
 }
 
 func NewCtx(w *World, fn *ssa.Function, mode Mode) *Ctx {
@@ -390,6 +392,9 @@ func (c *Ctx) wrap1(x string, t types.Type) string {
 func (c *Ctx) sliceSort() string { return "Slice" }
 
 func (c *Ctx) sortOf(t types.Type) string {
+	if t == bytesT {
+		return "Bytes"
+	}
 	if t == mathInt {
 		if c.Mode == ModeBV {
 			return "(_ BitVec 64)"
@@ -524,10 +529,10 @@ func (c *Ctx) strLit(s string) string {
 	c.litStr[s] = name
 	c.declConst(name, "Str")
 	// ground axioms: length, characters, distinctness from other literals
-	c.Decls = append(c.Decls, fmt.Sprintf("(assert (= (slen %s) %d))", name, len(s)))
+	c.Decls = append(c.Decls, fmt.Sprintf("(assert (= (slen %s) %s))", name, c.idxLit(int64(len(s)))))
 	if len(s) <= 64 {
 		for i := 0; i < len(s); i++ {
-			c.Decls = append(c.Decls, fmt.Sprintf("(assert (= (sat %s %d) %d))", name, i, s[i]))
+			c.Decls = append(c.Decls, fmt.Sprintf("(assert (= (sat %s %s) %s))", name, c.idxLit(int64(i)), c.numLit(big.NewInt(int64(s[i])), types.Typ[types.Byte])))
 		}
 	}
 	for o, on := range c.litStr {
